@@ -213,7 +213,7 @@ def session_case(spec):
     kind = spec['cfg']['type']
     vios, flags = [], set()
     if r['error']:
-        if r['error']['type'] in ('InsufficientMargin', 'InsufficientBalance', 'InvalidStrategy', 'OrderNotAllowed'):
+        if r['error']['type'] in ('InsufficientMargin', 'InsufficientBalance', 'InvalidStrategy', 'OrderNotAllowed', 'Watchdog'):
             return [], {'rejected'}, r
         return [(f"C16:session:raised-{r['error']['type']}", r['error']['msg'] + r['error']['tb'][-400:])], flags, r
     fin = r['final']
